@@ -166,7 +166,7 @@ def proof_obligations(pid):
 def parse_coq_term(s):
     """Parse Coq's printed value (lists, tuples, constructor applications, numbers, strings) into Python:
     list -> list, tuple -> tuple, application -> ('Ctor', args...), number -> int, ident -> str."""
-    toks = re.findall(r'"(?:[^"]|"")*"|\[|\]|\(|\)|;|,|[^\s\[\]();,]+', s)
+    toks = re.findall(r'"(?:[^"]|"")*"|\{\||\|\}|:=|\[|\]|\(|\)|;|,|[^\s\[\]();,{}|:]+', s)
     pos = [0]
     def peek(): return toks[pos[0]] if pos[0] < len(toks) else None
     def take():
@@ -181,6 +181,15 @@ def parse_coq_term(s):
                 t2 = take()
                 if t2 == "]": return items
                 assert t2 == ";", t2
+        if t == "{|":
+            rec = {}
+            if peek() == "|}": take(); return rec
+            while True:
+                name = take(); assert take() == ":=", name
+                rec[name] = expr()
+                t2 = take()
+                if t2 == "|}": return rec
+                assert t2 == ";", t2
         if t == "(":
             items = [expr()]
             while peek() == ",":
@@ -194,7 +203,7 @@ def parse_coq_term(s):
     def expr():
         head = atom()
         args = []
-        while peek() not in (None, "]", ")", ";", ","):
+        while peek() not in (None, "]", ")", ";", ",", "|}"):
             args.append(atom())
         if args: return (head,) + tuple(args)
         return head
@@ -294,3 +303,31 @@ class Verdict:
             p = write_replay(self.pid, self.seed, payload, "-unproved")
             print("VIOLATION property=%s replay=%s no-failing-input-found" % (self.pid, p)); n = len(self.broken)
         return n
+
+# ---------------------------------------------------------------- bank-level families
+
+BANK_PRE = ("From DZ Require Import Base Keys Merkle BurnRate Shares Swap_Ring State World SwapDeq RD Passport Swap Exec Corr.\n"
+            "Open Scope N_scope.\n")
+
+def run_family(family, seed, n, length, extra=(), timeout=3000):
+    """Run a harness family; returns (history lines, stats line)."""
+    rc, out = sh([DZH, family, str(seed), str(n), str(length)] + [str(x) for x in extra], timeout=timeout)
+    if rc != 0:
+        raise RuntimeError("harness family %s failed (rc=%d):\n%s" % (family, rc, out[-3000:]))
+    lines = [l for l in out.splitlines() if l.startswith("[") or l.startswith("let ")]
+    stats = [l for l in out.splitlines() if l.startswith("#stats")]
+    return lines, (stats[0] if stats else "")
+
+def eval_traces(name, lines, fn="corr_trace", pre=BANK_PRE, shard=16):
+    """Evaluate `fn` on every history (vm_compute in coqc, sharded). Returns a list of parsed values."""
+    return coq_eval_sharded(name, pre, ["(%s)" % l for l in lines], fn, shard=shard)
+
+def parse_stats(stats):
+    d = {}
+    m = re.search(r"txs=(\d+) ok=(\d+) fail=(\d+)", stats)
+    if m: d.update(txs=int(m.group(1)), ok=int(m.group(2)), fail=int(m.group(3)))
+    kinds = {}
+    for k, a, b in re.findall(r"(\S+)=(\d+)/(\d+)", stats.split("kinds(ok/fail):")[-1]):
+        kinds[k] = [int(a), int(b)]
+    d["kinds"] = kinds
+    return d
